@@ -54,6 +54,7 @@ theorem bind_finish (F : Facts) {t : State} {ns name : String} {pod : Pod} {uid 
   have fr3 := fr.trans hl.2
   have hp : Tbl.get (bindLoop t2 (keyOf pod) node { policy := policyOf pod, node := node, uid := pod.uid }
       (infos.filterMap id) (infos2.filterMap id)).1.pods (ns, name) = some pod := by rw [fr3.pods]; exact hs.truth
+  rw [bindCommitX_nofault (hs.nf.of_frame fr3)]
   have := bindCommit_ok (hs.nf.of_frame fr3) pod ns name uid node (infos2.filterMap id) pod hp hs.uid
   refine ⟨this.1, ?_⟩
   rw [this.2]
@@ -227,7 +228,7 @@ theorem bind_good (F : Facts) {t : State} {ns name : String} {pod : Pod} {uid : 
           have hal := allocRanges_ok hs.coh hs.nf (keyOf pod) sn { policy := policyOf pod, node := node, uid := pod.uid }
             ch.pick (unfound t pod) hun picks hpicks
           have hc2 := allocateInSubnetsAndRanges_coherent t (keyOf pod) sn (unfound t pod)
-            { policy := policyOf pod, node := node, uid := pod.uid } ch.pick hs.coh
+            { policy := policyOf pod, node := node, uid := pod.uid } ch.pick hs.coh (Or.inr hal.1)
           have fr := allocRanges_frame hs.coh (keyOf pod) sn { policy := policyOf pod, node := node, uid := pod.uid }
             ch.pick (unfound t pod)
           have hune : (unfoundRanges (byKeyAndRanges t (keyOf pod) pod.ranges) pod.ranges).isEmpty = false :=
